@@ -336,7 +336,20 @@ class Parser:
         for n, code in enumerate(mac.args):
             arg_extr = arg = []
             delim = False
-            tok = buf.skip_space()
+            if code == 'A':
+                tok = buf.skip_space()
+            else:
+                # optional argument: if it is absent, then keep the language
+                # tokens we have stepped over (e.g., the one closing the
+                # argument of an enclosing \foreignlanguage)
+                skipped = []
+                tok = buf.cur()
+                while buf.is_space(tok):
+                    skipped.append(tok)
+                    tok = buf.next()
+                if not (tok and tok.txt == ('*' if code == '*' else '[')):
+                    buf.back([t for t in skipped
+                                    if type(t) is defs.LanguageToken])
             if tok:
                 pos = tok.pos
             if code == '*':
